@@ -12,6 +12,8 @@ TMP="$(pwd)/target/selftest"; rm -rf "$TMP"; mkdir -p "$TMP"
 export VSIM_VERIF_DIR="$TMP"   # keep replays/evidence of the self-test out of /verif
 cp known_findings.json "$TMP/" 2>/dev/null
 rc=0
+# the simulator's own sensitivity: toy deadlock / race over the seam's wrappers
+"$BIN" selftest || rc=2
 for p in C05 C07 C10 C14 C15 C18 C19; do
   n=$N; [ "$p" = C07 ] && n=$((N/4))
   for seed in 1 7; do
